@@ -258,6 +258,10 @@ def hasNonIdentParam : List FnArg → Bool
   | .typed _ (.other _ _) _ :: _ => true
   | _ :: rest => hasNonIdentParam rest
 
+/-- `impl_params`: the macro's own type parameter (generic dependency mode only), then the lifted ones -/
+def implParams (depMode : DepMode) (byValue : Bool) (tgParams : List GParam) : List GParam :=
+  (match depMode with | .generic => [implTParam byValue] | .concrete _ => []) ++ tgParams
+
 /-- `FnDelegationCodegen::gen_impl_block` -/
 def genImplBlock (opts : Opts) (traitRef : Toks) (ind : ImplIndirection) (tg : TraitGenerics)
     (mode : InputMode) (depMode : DepMode) (subAttrs : List Attr) (fns : List TraitFn) :
@@ -265,12 +269,9 @@ def genImplBlock (opts : Opts) (traitRef : Toks) (ind : ImplIndirection) (tg : T
   if fns.any (fun tf => hasNonIdentParam tf.sig.inputs) then
     .error "fn_delegation_codegen.rs: Found a non-ident pattern"
   else
-    let byValue := fns.any (fun tf => tf.sig.takesSelfByValue)
-    let params : List GParam :=
-      (match depMode with | .generic => [implTParam byValue] | .concrete _ => []) ++ tg.params
     .ok
       { attrs := subAttrs.filter (fun a => a.subKind == .asyncTrait)
-        params := params
+        params := implParams depMode (fns.any (fun tf => tf.sig.takesSelfByValue)) tg.params
         traitRef := traitRef ++ genericArgs ind tg.params
         selfTy := implSelfTy depMode ind opts.mockable
         preds := implWherePreds depMode ind fns tg
